@@ -121,6 +121,9 @@ theorem Ev.trun {σ : State} {e : Expr} {n : Nat} {x : BitVec n} (m : Nat) (hm0 
     simp [Expr.eval, h3, ExtOp.apply, this]
 
 
+theorem Ev.mul {σ : State} {l r : Expr} {n : Nat} {x y : BitVec n} (hl : Ev σ l n x) (hr : Ev σ r n y) :
+    Ev σ (.bin .mul l r) n (x * y) := Ev.bin hl hr rfl (C04.mul_spec x y)
+
 theorem Ev.xor {σ : State} {l r : Expr} {n : Nat} {x y : BitVec n} (hl : Ev σ l n x) (hr : Ev σ r n y) :
     Ev σ (.bin .xor l r) n (x ^^^ y) := Ev.bin hl hr rfl (C04.xor_spec x y)
 
